@@ -266,6 +266,7 @@ def compiled_model_samples(run, m, n, rng):
             model = py.compile(m.symbolic_model, calibration_map={s: cal.get(s.name, 0.25) for s in order}, config={"common_subexpression_elimination": cse})
             alive.append((model, cal))
         for model, cal in alive:
+            held = []  # every state the model returned stays in use: it is compared only after ALL calls on this model were made
             for k in range(min(n, 6)):
                 pt = {kk: float(v) for kk, v in random_point(rng).items()}
                 pt.update({s.name: cal.get(s.name, 0.25) for s in cal_syms})
@@ -275,7 +276,9 @@ def compiled_model_samples(run, m, n, rng):
                 control = model.Control(**{str(s): pt[s.name] for s in model.arglist_control})
                 run.native_runs += 1
                 out = model.model(pt["dt"], state, control)
-                sp, N = spec(lambda nme: Fraction(pt[nme]) if nme in pt else Fraction(0))
+                sp, N = spec(lambda nme, pt=pt: Fraction(pt[nme]) if nme in pt else Fraction(0))
+                held.append((out, sp, pt))
+            for out, sp, pt in held:
                 for idx, s in enumerate(model.arglist_state):
                     want = float(sp[s.name])
                     got = float(out.data[idx, 0])
